@@ -93,6 +93,37 @@ func liWorldGen(r *Run, rng *Rng, w *liWorld, steps int) {
 	}
 	for s := 0; s < steps; s++ {
 		halted := w.p.IsHalted()
+		if s == steps/2 && !halted {
+			// directed: a block with four info updates starting at an ODD leaf index whose last leaf row fails to be stored
+			// (three leaves are already in the frontier when the transaction is rolled back), retried in the same process
+			mk := func(n int) string {
+				ph, ts := hx(rng.Bytes(32)), liTimestamp(rng, bn, 0)
+				var toks []string
+				for i := 0; i < n; i++ {
+					toks = append(toks, fmt.Sprintf("i;%d;%s;%s;%s;%d", i, hx(rng.Bytes(32)), hx(pool[1+rng.Intn(len(pool)-1)][:]), ph, ts))
+				}
+				return strings.Join(toks, " ")
+			}
+			if len(liBuildRef(w.survivors).leaves)%2 == 0 {
+				if w.exec(r, fmt.Sprintf("blk %d %s", bn, mk(1))) == "ok" {
+					tip = bn
+					bn++
+				}
+			}
+			evs := mk(4)
+			w.exec(r, fmt.Sprintf("blk! %d %d %s", bn, 1000+4, evs))
+			if !(len(w.survNums) > 0 && w.survNums[len(w.survNums)-1] == bn) {
+				if o := w.exec(r, fmt.Sprintf("blk %d %s", bn, evs)); o != "ok" {
+					r.Fail("[C07] retrying a well-formed L1 block after a storage fault did not succeed: "+o, append([]string{"new"}, w.lines...))
+				}
+			}
+			tip = bn
+			bn++
+			r.Count("branch:directed-odd-index-rollback")
+			w.checkAgainstContracts(r, "after a rolled-back block of four updates at an odd index, retried")
+			w.compareWithTwin(r, "after a rolled-back block of four updates at an odd index, retried")
+			continue
+		}
 		c := rng.Intn(100)
 		switch {
 		case halted || c < 12:
